@@ -213,6 +213,10 @@ impl<T> ResourceController<T> {
 	pub fn try_reserve(&self) -> Result<Key, ResourceLimitReached> {
 		#[cfg(feature = "verif-hooks")]
 		crate::verif::sync_point("res.reserve");
+		// an arena with no slots has no free list to reserve from
+		if self.arena_controller.capacity() == 0 {
+			return Err(ResourceLimitReached);
+		}
 		self.arena_controller
 			.try_reserve()
 			.map_err(|_| ResourceLimitReached)
